@@ -85,13 +85,16 @@ type crashPoint struct {
 	drop func(i int) bool
 }
 
-func crashPoints(evs []Event, rng *rand.Rand, thorough bool, budget int) []crashPoint {
+func crashPoints(evs []Event, rng *rand.Rand, thorough bool, budget int, minEv int) []crashPoint {
 	var pts []crashPoint
 	last := 0 // index after the last barrier
 	for n := 0; n <= len(evs); n++ {
 		if n > 0 && evs[n-1].Barrier {
 			last = n
 			continue // same image as the prefix before the barrier
+		}
+		if n < minEv {
+			continue
 		}
 		pts = append(pts, crashPoint{n: n, pat: "-"})
 		k := 0 // number of un-barriered writes in the prefix
@@ -160,8 +163,23 @@ func runCrash(seed int64, nops int, size uint64, prof string, unstable bool, out
 	pc := Exec(r.srv, Op{Proc: "pathconf"}, root, nil)
 	g.wtmax, g.maxfs, g.nmax = fi.Wtmax, fi.Maxfs, pc.Namemax
 	g.p.W["restart"] = 0
+	var script []Op
+	focusOp := -1
+	if prof == "bigshrink" {
+		script, focusOp = bigShrinkScript(seed, fi.Wtmax)
+		nops = len(script)
+	}
+	minEv := 0
 	for i := 0; i < nops; i++ {
-		o := g.Next()
+		var o Op
+		if script != nil {
+			o = script[i]
+			if i == focusOp {
+				minEv = r.d.NEvents()
+			}
+		} else {
+			o = g.Next()
+		}
 		s := r.d.NEvents()
 		rep := r.Step(o)
 		e := r.d.NEvents()
@@ -187,8 +205,9 @@ func runCrash(seed int64, nops int, size uint64, prof string, unstable bool, out
 	}
 	cands := candidates(base, evs)
 	rng := rand.New(rand.NewSource(seed ^ 0x5eed))
-	for ci, cp := range crashPoints(evs, rng, thorough, budget) {
+	for ci, cp := range crashPoints(evs, rng, thorough, budget, minEv) {
 		img := CrashImage(base, evs, cp.n, cp.drop)
+		img.Record(true)
 		var srv *nfs.Nfs
 		var perr interface{}
 		func() {
@@ -217,17 +236,78 @@ func runCrash(seed int64, nops int, size uint64, prof string, unstable bool, out
 					fmt.Fprintf(w, "X panic\n")
 				}
 			}()
+			if script != nil {
+				// touch the object whose freeing the cut interrupted: the rest of its blocks must then be released
+				sr.Step(Op{Id: 900010, Proc: "lookup", H: "root", Name: "a"})
+				sr.Step(Op{Id: 900011, Proc: "write", H: "@900010", Off: 1, Cnt: 3, Stable: 2, Data: DataSpec{Pat: true, Len: 3, Seed: 5}})
+			}
 			sr.Step(Op{Id: 900001, Proc: "create", H: "root", Name: name})
 			sr.Step(Op{Id: 900002, Proc: "write", H: "@900001", Off: 4000, Cnt: 200, Stable: 2, Data: DataSpec{Pat: true, Len: 200, Seed: uint64(ci)}})
 			sr.Step(Op{Id: 900003, Proc: "read", H: "@900001", Off: 0, Cnt: 5000})
 			sr.Step(Op{Id: 900004, Proc: "readdirplus", H: "root", Dircount: 1 << 20, Maxcount: 1 << 20})
 			sr.Step(Op{Id: 900005, Proc: "remove", H: "root", Name: name})
 		}()
+		// the disk after the suffix: every block written since the image was made, in its logical
+		// (log applied) contents, for the model's invariant and abstraction
+		func() {
+			defer func() {
+				if e := recover(); e != nil {
+					fmt.Fprintf(w, "X panic\n")
+				}
+			}()
+			srv.VerifShrinker().Shutdown()
+			rd := logicalReader(srv)
+			for _, a := range candidates(NewSDisk(size), img.Events()) {
+				b := rd(a)
+				if isZero(b) {
+					fmt.Fprintf(w, "GD %d z\n", a)
+				} else {
+					fmt.Fprintf(w, "GD %d %s\n", a, hex.EncodeToString(b))
+				}
+			}
+			st2 := srv.VerifState()
+			fmt.Fprintf(w, "GA %d %d %d\n", st2.Balloc.NumFree(), st2.Ialloc.NumFree(), b2i(script != nil))
+		}()
 		fmt.Fprintf(w, "GE\n")
 		w.Flush()
 		srv.ShutdownNfs()
 	}
 	fmt.Fprintf(w, "END %d\n", len(evs))
+}
+
+// bigShrinkScript: a file of more than 700 blocks (so that freeing it takes several background
+// transactions) is cut down or removed; crash points are taken from that call on.
+func bigShrinkScript(seed int64, wtmax uint64) ([]Op, int) {
+	s := &scripter{}
+	a := s.add(Op{Proc: "create", H: "root", Name: "a"})
+	ah := fmt.Sprintf("@%d", a)
+	n := wtmax / 4096 * 4096
+	if n > 360*4096 {
+		n = 360 * 4096
+	}
+	var off uint64
+	for off < 720*4096 {
+		s.add(Op{Proc: "write", H: ah, Off: off, Cnt: n, Stable: 2, Data: pat(n, int(seed%200)+int(off/4096)%50)})
+		off += n
+	}
+	b := s.add(Op{Proc: "create", H: "root", Name: "b"})
+	bh := fmt.Sprintf("@%d", b)
+	s.add(Op{Proc: "write", H: bh, Off: 0, Cnt: 3 * 4096, Stable: 2, Data: pat(3*4096, 9)})
+	focus := len(s.ops)
+	switch seed % 4 {
+	case 0:
+		s.add(Op{Proc: "setattr", H: ah, HasSize: true, Size: 0})
+	case 1:
+		s.add(Op{Proc: "remove", H: "root", Name: "a"})
+	case 2:
+		s.add(Op{Proc: "setattr", H: ah, HasSize: true, Size: 5*4096 + 123})
+	default:
+		s.add(Op{Proc: "rename", H: "root", Name: "b", H2: "root", Name2: "a"})
+	}
+	c := s.add(Op{Proc: "create", H: "root", Name: "c"})
+	s.add(Op{Proc: "write", H: fmt.Sprintf("@%d", c), Off: 0, Cnt: 2 * 4096, Stable: 2, Data: pat(2*4096, 11)})
+	s.add(Op{Proc: "mkdir", H: "root", Name: "d"})
+	return s.ops, focus
 }
 
 func init() {
